@@ -275,6 +275,31 @@ func byzCatalogue(e common.Env) []byzScenario {
 					w.push(S, g, payloadMsg(S, 1, 2, true, 0xffff))
 				}
 			})
+			add("two-versions-in-opposite-orders", n, byz, limit, sample, func(w *rworld) {
+				for i, g := range all {
+					a, b := payloadMsg(S, 1, 1, true, 0xffff), payloadMsg(S, 1, 2, true, 0xffff)
+					if i%2 == 1 {
+						a, b = b, a
+					}
+					w.push(S, g, a)
+					w.push(S, g, b)
+				}
+			})
+			add("two-versions-in-opposite-orders+selfacks+accomplices", n, byz, limit, sample, func(w *rworld) {
+				for i, g := range all {
+					a, b := payloadMsg(S, 1, 1, true, 0xffff), payloadMsg(S, 1, 2, true, 0xffff)
+					if i%2 == 1 {
+						a, b = b, a
+					}
+					w.push(S, g, a)
+					w.push(S, g, b)
+					w.push(S, g, ackMsg(S, 1, a.digest, "self"))
+					for _, ac := range accomplices {
+						w.push(ac, g, ackMsg(S, 1, a.digest, "acc-first"))
+						w.push(ac, g, ackMsg(S, 1, b.digest, "acc-second"))
+					}
+				}
+			})
 			add("resend-after-delivery", n, byz, limit, sample, func(w *rworld) {
 				m := payloadMsg(S, 1, 1, true, 0xffff)
 				for _, g := range all {
